@@ -67,7 +67,8 @@ def random_tree(rng, depth=0):
 
 def gen_hints(rng):
     out = []
-    for _ in range(rng.randint(1, 7)):
+    # mostly short lists; one in ten is long (dozens of entries, as a peer with many interfaces or a hostile one sends)
+    for _ in range(rng.randint(1, 7) if rng.random() < 0.9 else rng.randint(25, 90)):
         k = rng.choice(["valid", "mut", "mut", "relay", "relay-bad", "tree", "tor", "samehost"])
         if k == "valid":
             out.append(valid_direct(rng))
